@@ -86,8 +86,20 @@ MODULE_BUDGET = float(os.environ.get('VERIF_C09_MODULE_BUDGET', '180'))  # one w
 class Deadline:
 	"""Total wall deadline of one stream / search: generation stops, what was produced is still checked."""
 
+	# Wall budget shared by all streams and searches of one run, counted from the end of the proof step (`origin`, set by
+	# run()): once it is used up every later stream / search still gets `MIN_SLICE` seconds, so the tier stays within
+	# its time on a loaded machine (quick <~ 100 s, thorough <~ 15 min) and nothing is skipped altogether.
+	# What a deadline cut is reported as a count in the evidence; it never changes a verdict.
+	GLOBAL = (75.0, 680.0)     # quick, thorough
+	MIN_SLICE = (12.0, 40.0)
+	origin: float | None = None
+
 	def __init__(self, ctx: Ctx, quick: float, thorough: float) -> None:
-		self.end = time.time() + (thorough if ctx.thorough else quick)
+		now = time.time()
+		i = 1 if ctx.thorough else 0
+		cap = thorough if ctx.thorough else quick
+		shared = (Deadline.origin if Deadline.origin is not None else now) + Deadline.GLOBAL[i]
+		self.end = max(min(now + cap, shared), now + min(cap, Deadline.MIN_SLICE[i]))
 		self.cut = 0
 
 	def over(self) -> bool:
@@ -1951,7 +1963,10 @@ def search_prop_keys_history(ctx: Ctx) -> SearchResult:
 		modes += [('reverse-mro', 0), ('leaves-first', 0), ('none', 0)] + [('random', rng.randrange(100000)) for _ in range(8)]
 	gen = ProgGen(rng)
 	curated = [f for f in REAL_QUICK if is_curated(os.path.join(common.REPO, f)) and os.path.exists(os.path.join(common.REPO, f))]
+	dl = Deadline(ctx, 60, 300)
 	for mode, seed in modes:
+		if PK_REAL_CASES and dl.over():  # the first order always runs (it also feeds the propkeys-real stream)
+			continue
 		sources: list[list[str]] = []
 		must_hold: dict[str, bool] = {}
 		for f in rng.sample(curated, min(len(curated), ctx.scale(1, 3))):
@@ -1985,7 +2000,7 @@ def search_prop_keys_history(ctx: Ctx) -> SearchResult:
 			res.samples.append({'order': mode, 'seed': seed, 'sources': [n for n, _ in sources][:4], 'hist': out['hist']})
 	res.distinct = len(modes)
 	res.histogram = dict(hist)
-	res.note = 'the prop_keys() cache is a class attribute looked up with hasattr (follows the MRO): a base queried before a subclass must not leak its list'
+	res.note = 'the prop_keys() cache is a class attribute looked up with hasattr (follows the MRO): a base queried before a subclass must not leak its list' + dl.note().replace('case(s)', 'order(s)')
 	return res
 
 
@@ -2330,6 +2345,7 @@ def run(ctx: Ctx) -> int:
 		except Exception as e:  # noqa: BLE001 - TranslateError: the tie between source and model is broken
 			translate_ok, translate_msg = False, f'{type(e).__name__}: {e}'
 	proof = common.prove(ctx, PROP, leanchecker=ctx.thorough)
+	Deadline.origin = time.time()
 	with ctx.timed('search_prop_keys_history'):
 		# fresh processes; also yields the real class table and the real prop_keys() answers for the propkeys-real stream
 		s3 = guarded_search('prop-keys-history', lambda: search_prop_keys_history(ctx))
